@@ -68,6 +68,31 @@ static const struct session SESSIONS[] = {
 };
 #define NSESSIONS ((int)(sizeof(SESSIONS) / sizeof(SESSIONS[0])))
 
+/* sessions with messages that fill more than half of / exactly the daemon's read buffer: texts generated at start */
+static char big_a[600], big_b[600], big_c[600], big_d[600];
+static struct session BIG_SESSIONS[2];
+static void make_big(char *out, const char *path, size_t total)
+{
+	int n = snprintf(out, 600, "{\"id\":\"big\",\"method\":\"add\",\"params\":{\"path\":\"%s\",\"value\":\"", path);
+	size_t fill = total - (size_t)n - 3;
+	memset(out + n, 'v', fill);
+	strcpy(out + n + fill, "\"}}");
+}
+static void build_big_sessions(void)
+{
+	make_big(big_a, "big/a", 339);
+	make_big(big_b, "big/b", CONFIG_MAX_MESSAGE_SIZE);     /* the largest legal raw message */
+	make_big(big_c, "big/c", 258);
+	make_big(big_d, "big/d", CONFIG_MAX_MESSAGE_SIZE - 8); /* websocket: payload after an 8-byte header */
+	BIG_SESSIONS[0] = (struct session){"big-messages-raw", 2, 0, {M(0, big_a), M(0, "{\"id\":1,\"method\":\"info\"}"), M(0, big_b), M(0, big_c), M(1, "{\"id\":1,\"method\":\"get\",\"params\":{\"path\":{\"startsWith\":\"big\"}}}"), END}};
+	BIG_SESSIONS[1] = (struct session){"big-messages-ws", 2, 1, {M(0, big_a), M(0, big_d), M(0, "{\"id\":1,\"method\":\"info\"}"), M(0, big_c), M(1, "{\"id\":1,\"method\":\"get\",\"params\":{\"path\":{\"startsWith\":\"big\"}}}"), END}};
+}
+#define NALL (NSESSIONS + 2)
+static const struct session *session_at(int i)
+{
+	return i < NSESSIONS ? &SESSIONS[i] : &BIG_SESSIONS[i - NSESSIONS];
+}
+
 static int conn[4];
 struct fstep {
 	int kind, conn;
@@ -178,12 +203,13 @@ static int reduced_pos(int ml, int k)
 
 static void run_sessions(void)
 {
-	int nsess = (int)xp_param("sessions", NSESSIONS);
-	if (nsess > NSESSIONS) {
-		nsess = NSESSIONS;
+	build_big_sessions();
+	int nsess = (int)xp_param("sessions", NALL);
+	if (nsess > NALL) {
+		nsess = NALL;
 	}
 	int si = xp_choose(nsess, XP_SCENARIO, "session");
-	const struct session *s = &SESSIONS[si];
+	const struct session *s = session_at(si);
 	int nsteps = count_steps(s);
 	int pairs = (int)xp_param("pairs", 0);
 	int kind = xp_choose(pairs ? 6 : 5, XP_SCENARIO, "schedule-kind"); /* 0 baseline(identity), 1 single split, 2 single bytes, 3 coalesce, 4 prefix ride, 5 pair of splits */
@@ -567,6 +593,6 @@ const struct driver drv_c09 = {
     .name = "c09",
     .property = "C09",
     .run = run,
-    .rule = "section 0: 13 multi-connection sessions (raw and websocket, fetch, routed requests, batches, errors, zero and oversize length prefixes, ping/pong, owner leaving, timeout) x delivery schedules {every single split point of every message and of every websocket upgrade request, with and without a would-block in between; all single bytes (queued at once / one readiness event per byte); every coalescing of runs of consecutive messages of one connection; a proper prefix of every length of the next message of another connection riding in the same batch in both dispatch orders; (thorough) pairs of split points}, each compared with the one-chunk-per-message baseline run as a twin; section 1: 13 truncated / over-long message shapes x 2 transports x 7 fresh-memory fill bytes x 6 residues of an earlier long message, compared with a reference run; section 2: length prefixes 0, max-1, max, max+1, 2^31, 2^32-1, 65536 x split positions of the prefix; non-trivial = applicable schedules",
+    .rule = "section 0: 15 multi-connection sessions (two of them with messages of 258, 339 and the maximal 512 / 504 bytes; raw and websocket, fetch, routed requests, batches, errors, zero and oversize length prefixes, ping/pong, owner leaving, timeout) x delivery schedules {every single split point of every message and of every websocket upgrade request, with and without a would-block in between; all single bytes (queued at once / one readiness event per byte); every coalescing of runs of consecutive messages of one connection; a proper prefix of every length of the next message of another connection riding in the same batch in both dispatch orders; (thorough) pairs of split points}, each compared with the one-chunk-per-message baseline run as a twin; section 1: 13 truncated / over-long message shapes x 2 transports x 7 fresh-memory fill bytes x 6 residues of an earlier long message, compared with a reference run; section 2: length prefixes 0, max-1, max, max+1, 2^31, 2^32-1, 65536 x split positions of the prefix; non-trivial = applicable schedules",
     .assumptions = "schedule parameters that do not denote a schedule of the chosen session (split position beyond the message) end the run at once and are not counted|coalescing is only applied to messages that are adjacent in the session, so the completion order of whole messages is preserved",
 };
